@@ -280,3 +280,93 @@ func badSwitch(k int) int {
 	}
 	return 2
 }
+
+// ---- helpers executed in place of their call (no contract) ----
+func hAdd(x int) int {
+	if x > 10 {
+		return x
+	}
+	return x + 1
+}
+func okInline(x int) int  { return hAdd(x) }
+func badInline(x int) int { return hAdd(x) }
+func hStore(p *int)       { *p = 5 }
+func okInlineStore() int {
+	var v int
+	hStore(&v)
+	return v
+}
+func badInlineStore() int {
+	var v int
+	hStore(&v)
+	return v
+}
+func hField(p *T) { p.x = 7 }
+func okInlineFrame(p *T, q *T) int {
+	hField(p)
+	return q.x
+}
+func badInlineFrame(p *T, q *T) int {
+	hField(p)
+	return q.x
+}
+func hTwo(a int) (int, bool) {
+	if a < 0 {
+		return 0, false
+	}
+	return a, true
+}
+func okInlineTuple(a int) int {
+	v, ok := hTwo(a)
+	if !ok {
+		return -1
+	}
+	return v
+}
+func badInlineTuple(a int) int {
+	v, ok := hTwo(a)
+	if !ok {
+		return -1
+	}
+	return v
+}
+func okInlineLoop(n int) int {
+	s := 0
+	for i := 0; i < n; i++ {
+		s = hAdd(s)
+	}
+	return s
+}
+func badInlineLoop(p *T, n int) int {
+	for i := 0; i < n; i++ {
+		hField(p)
+	}
+	return p.x
+}
+func hRec(n int) int {
+	if n <= 0 {
+		return 0
+	}
+	return hRec(n-1) + 1
+}
+func badInlineRec(n int) int { return hRec(n) }
+func okRenamed(data []byte) int {
+	pos := 0
+	for pos < len(data) {
+		pos++
+	}
+	return pos
+}
+func okLenientImpl(a int) (f func() int, err error) {
+	if a < 0 {
+		return nil, errNeg
+	}
+	v := a
+	return func() int { return v }, nil
+}
+
+var errNeg = errString("neg")
+
+type errString string
+
+func (e errString) Error() string { return string(e) }
